@@ -497,7 +497,10 @@ func (e *Engine) sprintf(st *State, args []Value) Value {
 				out = append(out, v.B...)
 			default:
 				// Stringer?
-				m := e.prog.LookupMethod(arg.T, nil, "String")
+				m := e.methodByName(arg.T, "Error") // fmt handles errors before Stringers
+				if m == nil {
+					m = e.methodByName(arg.T, "String")
+				}
 				if m == nil {
 					e.unsupported_(st, "Sprintf %s on "+arg.T.String())
 					return nil
@@ -515,6 +518,15 @@ func (e *Engine) sprintf(st *State, args []Value) Value {
 		}
 	}
 	return StringV{out}
+}
+
+// methodByName returns the exported method name of T (nil if T has none); LookupMethod panics on a missing method.
+func (e *Engine) methodByName(T types.Type, name string) *ssa.Function {
+	sel := e.prog.MethodSets.MethodSet(T).Lookup(nil, name)
+	if sel == nil {
+		return nil
+	}
+	return e.prog.MethodValue(sel)
 }
 
 // callSync runs fn to completion on this state; forks inside are not supported.
